@@ -533,10 +533,15 @@ class HistogramBase(abc.ABC):
             )
             return histogram
         elif axis is None:
+            # Work on a copy so that a refusal on a later axis leaves nothing half-merged
+            histogram = self.copy()
             for i in range(self.ndim):
-                self.merge_bins(
+                histogram.merge_bins(
                     amount=amount, min_frequency=min_frequency, axis=i, inplace=True
                 )
+            self._binnings = histogram._binnings
+            self._frequencies = histogram._frequencies
+            self._errors2 = histogram._errors2
         else:
             axis = self._get_axis(axis)
             if amount is not None:
